@@ -48,6 +48,9 @@ def qvec(rng, n, kind, r=2):
         if r2:
             r2[0] = int(rng.choice(lo))
         return np.array((r1 + r2)[:n], dtype=dt)
+    if kind == 'int8-small':
+        # ordinary small charges stored as int8 (products with the bond dimension overflow for bonds >= 64)
+        return rng.integers(-2, 3, size=n).astype(np.int8)
     if kind == 'int8':
         # labels stored in a narrow integer type with values near its limits (differences of neighbours overflow int8)
         return rng.choice(np.array([-120, -100, 0, 1, 100, 127]), size=n).astype(np.int8)
